@@ -36,7 +36,8 @@ def WfKids (tag : String) (cs : List Xml) : Bool :=
     skips a child without its ID tag, and listing the stories does not read the IDs) -/
 def WfRO (d : Xml) : Bool := (rcOf d).isSome
 
-/-- timing metadata, where present, is numeric / parseable (so that listing stories cannot fail) -/
+/-- timing metadata, where present, is numeric / parseable: evaluating `ro.stories` cannot fail.  No merge
+    depends on it since 04c82e2 (story inserts no longer list `ro.stories`); implied by `HistInv` (`histInv_dom`). -/
 def TimingOk (d : Xml) : Bool :=
   match rcOf d with
   | none => false
@@ -241,7 +242,7 @@ def levelTag (k : Kind) : String := if k.isStoryLevel then "story" else "item"
     the edited container unique (blank or missing IDs — key `none` — may occur any number of times:
     no reference resolves to them), schema-shaped message, references resolve -/
 def DomOrder (i : MergeInput) : Bool :=
-  WfRO i.d && !completed i.d && TimingOk i.d && shaped i.k i.m && (i.k.isStoryLevel || i.k.isItemLevel) &&
+  WfRO i.d && !completed i.d && shaped i.k i.m && (i.k.isStoryLevel || i.k.isItemLevel) &&
   match i.m.find i.k.baseTag with
   | none => false
   | some base =>
@@ -295,7 +296,7 @@ def holdsC07 (i : MergeInput) (o : Res) : Bool :=
 /-! ### C12 — no built-in exception on well-formed input -/
 
 def DomC12 (i : MergeInput) : Bool :=
-  WfRO i.d && TimingOk i.d && shaped i.k i.m
+  WfRO i.d && shaped i.k i.m
 
 def holdsC12 (_ : MergeInput) (o : Res) : Bool :=
   match o.err with
